@@ -158,7 +158,7 @@ theorem quiet_same_effects (w : World) (c : Output.Output → Errs) (q : Bool) :
 theorem steps_pinned :
     (Generated.wiring.lookup "runner").map (·.2.1) =
       some ["@stepDefaultInput", "@stepReadConfig", "@stepCompile", "@stepValidateOutput", "@stepCodeGenerator"] ∧
-    (Generated.wiring.lookup "stepCodeGenerator").map (·.2.1) = some ["@printer", "@templateBuilder", "%outputFile%"] ∧
+    Generated.argsAre ((Generated.wiring.lookup "stepCodeGenerator").map (·.2.1)) ["@printer", "@templateBuilder", "%outputFile%"] = true ∧
     (Generated.wiring.lookup "compiler").map (·.2.1) =
       some ["@stepValidateInput", "@stepCompileMeta", "@stepCompileParams", "@stepCompileServices", "@stepCompileDecorators"] ∧
     Generated.wiringDecorators = [["step-runner-verbose", "runner.DecorateStepVerboseSwitchable", "@printer", "@printer"]] := by
